@@ -1151,6 +1151,9 @@ static void vs_run_child(vs_scenario_fn scenario, char **lines, int nlines) {
     vs_nsteps = 0;
     vs_nchoice = 0;
     vs_debug = getenv("VS_DEBUG") != NULL;
+    if (getenv("VS_STEP_CAP")) { /* executions that are long by design (a burst of a thousand log calls) */
+        vs_step_cap = atol(getenv("VS_STEP_CAP"));
+    }
     aws_verif_atomic_hook = vs_atomic_hook;
     vh_alloc_point = vs_point;
     vs_lsan_enable();
